@@ -181,6 +181,9 @@ def effects(F, b, depth=0, subst=None):
     for w in mut_calls(b, R):
         c = w.callee
         a0 = w.args[0]
+        if w.owned and c.name == 'fill':
+            # `let mut copy = node.children; copy.fill(None)` fills a by-value copy of the slot array, not the node's slots
+            continue
         if a0 == ('field', ('param', 'self'), 'arena'):
             if c.name == 'insert':
                 out.append(Eff('insert', w.bb, node=w.args[1], span=w.span))
